@@ -57,17 +57,32 @@ def _helper_is_transparent(model):
                                                 '%s(*%s+%s,**%s)' % (p[0], p[1], p[2], p[3]))
 
 
-def _signature(fn, rewrite):
+def _signature(model, cls, fn, rewrite):
+    """path signatures on symbolic normal forms (helper methods spliced, temporaries substituted, branch order irrelevant)"""
+    import copy
+    from ..symexpr import SymEval
+
+    def rw(e):
+        if e is None:
+            return 'None'
+        return src(ev.simplify(ast.fix_missing_locations(rewrite.visit(copy.deepcopy(e)))))
+
     sigs = set()
-    for p in sym_paths(fn.node, rewrite=rewrite):
+    ev = SymEval(model, cls)
+    for p in ev.run(fn):
         if p.raised:
             continue
-        conds = tuple((c, o) for c, o in p.conds if 'client' not in c)
-        st = text(p.stores.get('state')) if 'state' in p.stores else None
-        em = tuple((text(d), text(m)) for d, m in p.emits)
-        # the return value must be the emission's result
-        rets = text(p.ret)
-        sigs.add((conds, st, em, 'returns-emit' if '_emit' in rets else rets))
+        conds = []
+        for c, o in p.conds:
+            if c.startswith('<'):
+                continue
+            t = rw(ast.parse(c, mode='eval').body)
+            if 'client' not in t:
+                conds.append((t, o))
+        st = [v for f, v, s_, l in p.stores if f == 'state']
+        em = tuple((rw(d), rw(m)) for d, m, s_, l in p.emits)
+        rets = rw(p.ret)
+        sigs.add((tuple(sorted(set(conds))), rw(st[-1]) if st else None, em, 'returns-emit' if 'EMITRESULT' in rets else rets))
     return sigs
 
 
@@ -84,8 +99,8 @@ def check_sibling_sig(ctx, R):
             raise AnalysisError('anchor vanished: %s.update in core or dask' % name)
         con = 'streamz.dask.%s.update' % name
         try:
-            sc = _signature(cu, _DaskRewrite())
-            sd = _signature(du, _DaskRewrite())
+            sc = _signature(M, c, cu, _DaskRewrite())
+            sd = _signature(M, d, du, _DaskRewrite())
         except AnalysisError as e:
             raise
         only_c = sorted(sc - sd)
